@@ -293,9 +293,6 @@ impl ConnectionHandler for WrapHandler {
 
     fn poll(&mut self, cx: &mut Context<'_>) -> Poll<ConnectionHandlerEvent<Self::OutboundProtocol, Self::OutboundOpenInfo, Self::ToBehaviour>> {
         let r = self.inner.poll(cx);
-        if !self.inner.connection_keep_alive() && !self.halted_logged.swap(true, Ordering::SeqCst) {
-            self.log("halted".into());
-        }
         if let Poll::Ready(ev) = &r {
             match ev {
                 ConnectionHandlerEvent::OutboundSubstreamRequest { protocol } => {
@@ -318,6 +315,9 @@ impl ConnectionHandler for WrapHandler {
                 },
                 _ => self.log("out other".into()),
             }
+        }
+        if !self.inner.connection_keep_alive() && !self.halted_logged.swap(true, Ordering::SeqCst) {
+            self.log("halted".into());
         }
         r
     }
